@@ -282,6 +282,17 @@ GENERATED_CHILDREN = [
 ]  # fmt: skip
 
 
+# children that pin an inherited field to a constant (the documented 'marked subclass' pattern): soundness rests on the constant being forced on
+# load, whatever the input supplies for that key -- also on the class handed out for a plugin requested WITHOUT a version (a marker subclass)
+CONST_CHILDREN = [
+    ("const-pins-literal", [{"name": "Base", "fields": [["kind", ["Literal", "image", "table"]], ["title", "Str"]]},
+                            {"name": "Top", "base": "Base", "const": {"kind": "image"}, "fields": [["width", ["Optional", "Int"]]]}], "Top", {"kind": ["image", "table", "bogus", 7, None]}),
+    ("const-pins-through-chain", [{"name": "Base", "fields": [["kind", ["Literal", "a", "b"]], ["n", ["Optional", "Int"]]]},
+                                  {"name": "Mid", "base": "Base", "const": {"kind": "a"}, "fields": [["m", ["Optional", "Str"]]]},
+                                  {"name": "Top", "base": "Mid", "fields": [["q", ["Optional", "Bool"]]]}], "Top", {"kind": ["b", "zz", None]}),
+]  # fmt: skip
+
+
 # --------------------------------------------------------------------------------------------------
 # type lists
 
@@ -463,6 +474,16 @@ def run(tier: str, seed: int) -> dict:
         S = sl.build_family(fam)[top]
         for raw in sl.model_dicts(S, 2, validate=True):
             anc.instance(S, {"family": fam, "name": top}, "G:" + gname, raw)
+    for gname, fam, top, supplied in CONST_CHILDREN:
+        S = sl.build_family(fam)[top]
+        for unv in (False, True):
+            H = sl.unversioned_handle(S) if unv else S
+            sref = {"family": fam, "name": top, "unversioned": unv}
+            for raw in sl.model_dicts(S, 2, validate=True)[: (4 if quick else 40)]:
+                anc.instance(H, sref, ("U:" if unv else "G:") + gname, raw)
+                for k, vals in supplied.items():
+                    for v in vals:
+                        anc.instance(H, sref, ("U:" if unv else "G:") + gname, {**raw, k: v})
     if not quick:
         gens = [(n, S, sl.random_dicts(S, r, 400, 2, p_opt=0.3)) for n, S in inst.items()]
         for n, S, it in gens:
@@ -533,7 +554,7 @@ def run(tier: str, seed: int) -> dict:
             pc.pair(p_ts, c_ts)
         reached.append(f"{nr} seeded random pairs over the {len(g2)}-type depth<=2 grammar")
 
-    bound = (f"(a) {anc.n_inst} serialisable instances of {len(inst)} installed plugins + {len(GENERATED_CHILDREN)} generated child schemas x every MRO ancestor "
+    bound = (f"(a) {anc.n_inst} serialisable instances of {len(inst)} installed plugins + {len(GENERATED_CHILDREN)} generated child schemas + {len(CONST_CHILDREN)} constant-pinning children (by class and by the version-less handle, constant key supplied with other values) x every MRO ancestor "
              f"({anc.n_pairs} instance/ancestor pairs, {anc.n_dump_fail} instances skipped because their own json() raises [C12]); "
              f"(b) {pc.pairs} (P_type,C_type) pairs [{'; '.join(reached)}; {nm} make_mandatory pairs]: {pc.accepted} accepted by the plugin check, {pc.refused} refused, "
              f"{pc.parent_invalid} with a parent type the check refuses; {pc.values_checked} child-accepted corpus values re-parsed by the parent "
